@@ -31,7 +31,8 @@ EXTENDS Naturals, Sequences, FiniteSets, TLC
 CONSTANTS Versions,      \* protocol versions explored, subset of 1..6
           MaxLen,        \* bound on the number of server replies
           Fine,          \* BOOLEAN: failure path and factory wake-up as separate steps
-          EarlySet       \* BOOLEAN: (witness only) connected_event set before last_error is recorded
+          EarlySet,      \* BOOLEAN: (witness only) connected_event set before last_error is recorded
+          CloseKinds     \* which reactors' close() contracts the peer's disconnect is explored with (see CloseSteps)
 
 Algos        == {"lz4", "snappy"}          \* keys of locally_supported_compressions, lz4 first (preferred)
 AuthKinds    == {"none", "sasl", "dict"}   \* authenticator: None / Authenticator object / credentials dict
@@ -113,7 +114,13 @@ Step(m) == /\ hist' = Append(hist, m) /\ prev' = phase
 \* connected_event.set()          reactor close() after is_closed = True: error_all_requests;
 \* last_error = ConnectionShutdown (handshake unfinished); connected_event.set()
 DefunctSteps == IF EarlySet THEN <<"set", "record", "close", "errreq">> ELSE <<"record", "close", "errreq", "set">>
-CloseSteps   == <<"errreq", "record", "set">>
+\* what the reactor's close() does after is_closed = True when the peer closed the socket (not defunct):
+\*   "record_set": asyncorereactor  - error_all_requests; last_error = ConnectionShutdown (handshake unfinished); event.set()
+\*   "set_only"  : asyncio / eventlet / gevent / twisted close() - error_all_requests; event.set()   (last_error NOT recorded:
+\*                 the handshake callback's defunct() returns at once because is_closed is already True)
+\*   "no_set"    : libevreactor - error_all_requests only; Connection.factory runs into its timeout
+CloseSteps(rk) == IF rk = "record_set" THEN <<"errreq", "record", "set">>
+                  ELSE IF rk = "set_only" THEN <<"errreq", "set">> ELSE <<"errreq">>
 Cls(o)    == IF o = "auth_failed" THEN "auth" ELSE "conn"
 Raised(e) == IF e = "auth" THEN "raised_auth" ELSE "raised_conn"
 
@@ -194,11 +201,26 @@ ServerProtoError(m) ==
     /\ Step(m)
     /\ Fail("conn_error") /\ UNCHANGED <<remote, accepted>>
 
-Disconnect ==
+Disconnect(rk) ==
     /\ Live
-    /\ Step(Simple("Disconnect"))
-    /\ Die("conn_error", CloseSteps)
+    /\ Step(R("Disconnect", {}, rk))
+    /\ phase' = "Failed" /\ outcome' = "conn_error"
+    /\ IF Fine THEN todo' = CloseSteps(rk) /\ UNCHANGED <<lastErr, evt, factory>>
+       ELSE /\ todo' = <<>>
+            /\ lastErr' = IF rk = "record_set" THEN "conn" ELSE "none"
+            /\ evt' = (rk # "no_set")
+            /\ factory' = IF rk = "set_only" THEN "returned"        \* woken, no last_error: hands out the closed connection
+                           ELSE "raised_conn"                        \* raises last_error, resp. OperationTimedOut
     /\ UNCHANGED <<negotiated, compOn, cksum, sent, remote, accepted>>
+
+\* factory thread: nothing will ever set the event (libev close()): wait() times out, close() is a no-op, OperationTimedOut
+FactoryTimeout ==
+    /\ Fine /\ phase = "Failed" /\ todo = <<>> /\ ~evt /\ factory = "waiting"
+    /\ factory' = "raised_conn"
+    /\ act' = [name |-> "FactoryTimeout", m |-> Simple("")]
+    /\ UNCHANGED <<cfg, phase, prev, hist, remote, negotiated, compOn, cksum, accepted, outcome, sent, probed,
+                   evt, lastErr, todo>>
+AnyDisconnect == \E rk \in CloseKinds : Disconnect(rk)
 
 \* the factory thread itself: wait() timed out with the event unset -> conn.close(), raise OperationTimedOut
 Silence ==
@@ -237,8 +259,8 @@ AnyStartupReply == \E m \in Replies(phase) : StartupReply(m)
 AnyAuthReply    == \E m \in Replies(phase) : AuthReply(m)
 AnyProtoError   == \E m \in Replies(phase) : ServerProtoError(m)
 
-Next == AnyOptionsReply \/ AnyStartupReply \/ AnyAuthReply \/ AnyProtoError \/ Disconnect \/ Silence \/ Probe
-        \/ FailStep \/ FactoryObserve
+Next == AnyOptionsReply \/ AnyStartupReply \/ AnyAuthReply \/ AnyProtoError \/ AnyDisconnect \/ Silence \/ Probe
+        \/ FailStep \/ FactoryObserve \/ FactoryTimeout
 
 Spec == Init /\ [][Next]_vars
 
